@@ -823,9 +823,16 @@ def call_method(vm, obj, name, args, kwargs):
                     'rstrip', 'lstrip', 'partition', 'find', 'count', 'ljust', 'rjust', 'encode'):
             return getattr(obj, name)(*args, **kwargs)
     if isinstance(obj, str) and name == 'format':
-        # formatting symbolic values (diagnostic texts): an opaque string
+        # formatting symbolic values: an uninterpreted function of the literal over the operands (see Interp.format_term);
+        # a fresh opaque string when an operand has no string rendering in the model (diagnostic texts)
         from .pyvc import StrSort
-        return SStr(vm.fresh('fmt', StrSort))
+        hook = vm.hooks.get('format')
+        if hook:
+            r = hook(vm, obj, args, kwargs)
+            if r is not NotImplemented:
+                return r
+        t = vm.format_term(obj, tuple(args)) if not kwargs else None
+        return SStr(t if t is not None else vm.fresh('fmt', StrSort))
     if isinstance(obj, (bytes, SBytes)):
         if name == 'ljust':
             width, fill = args[0], args[1] if len(args) > 1 else b' '
